@@ -5,6 +5,7 @@ dynamic sequence of hook invocations, then an exception is injected at EVERY
 single position k (complete single-fault enumeration for that scenario) and at
 sampled pairs (k1, k2).
 """
+import collections.abc
 import gc
 import sys
 import threading
@@ -18,7 +19,7 @@ PROPERTY = "C05"
 LEVEL = "fault_enumeration"
 RULE = (
     "one case = one extraction scenario (suspended generated program with nested generator-based managers and exit stacks / thread parked on a lock / suspended, current or dead greenlet / "
-    "synthetic stack items with tuple, list, iterator and yields_frames unwrappers / arbitrary non-stack objects incl. hostile __repr__ and __eq__); the fault-free run records every dynamic "
+    "synthetic stack items with tuple, list, iterator and yields_frames unwrappers / arbitrary non-stack objects incl. hostile __repr__, __eq__, __class__, __getattr__, __len__, __bool__, __iter__ and hooks returning sequences whose protocol methods raise); the fault-free run records every dynamic "
     "invocation of unwrap_stackitem, FrameIterator.__next__, elaborate_frame, contexts_active_in_frame, elaborate_context, unwrap_context, unwrap_context_generator and gc.get_referents; "
     "then every position k gets an injected Exception in turn (exhaustive for single faults of that scenario) and up to 12 sampled pairs. distinct = (scenario kind, hook, position class, nesting of the stack being built)"
 )
@@ -31,7 +32,7 @@ REAL_VS_STUB = {
     "real": ["stackscope.extract and every hook dispatcher / built-in glue", "contextlib", "threading", "greenlet (3.12 leg)"],
     "stub": ["generated programs", "synthetic item types", "wrappers that count and raise at the k-th invocation"],
 }
-RARE_PROBES = ["late_faults", "pairs_injected", "fault_is_exception_group", "fault_in_nested_stack", "exception_group_seen", "scn_program", "scn_thread", "scn_greenlet", "scn_items", "scn_object"]
+RARE_PROBES = ["late_faults", "pairs_injected", "fault_is_exception_group", "hostile_special_method_objects", "hook_returns_hostile_sequence", "fault_in_nested_stack", "exception_group_seen", "scn_program", "scn_thread", "scn_greenlet", "scn_items", "scn_object"]
 LEGS = [
     {"name": "faults312", "python": "3.12", "quick": 1600, "thorough": 40000, "quick_s": 50, "thorough_s": 420, "run_timeout": 60},
     {"name": "faults311", "python": "3.11", "quick": 600, "thorough": 15000, "quick_s": 40, "thorough_s": 300, "run_timeout": 60},
@@ -485,13 +486,75 @@ class Hostile(object):
         return 1
 
 
+class HostileFault(Exception):
+    pass
+
+
+def _hostile_object(mode, raised):
+    """An object one of whose special methods / attributes raises (a lazy proxy without
+    its target, a mock with a failing spec...).  Every exception it raises is noted."""
+
+    def boom(*a, **k):
+        e = HostileFault("hostile %s" % mode)
+        raised.append(e)
+        raise e
+
+    if mode == "class":
+        return type("HostileClassAttr", (object,), {"__class__": property(boom)})()
+    if mode == "getattr":
+        return type("HostileGetattr", (object,), {"__getattr__": boom})()
+    name = {"len": "__len__", "bool": "__bool__", "iter": "__iter__", "call": "__call__"}[mode]
+    return type("Hostile_" + mode, (object,), {name: boom})()
+
+
+class _HostileSeq(collections.abc.Sequence):
+    """What a careless hook might hand back: a Sequence whose protocol methods fail."""
+
+    def __init__(self, mode, raised):
+        self.mode = mode
+        self.raised = raised
+
+    def _boom(self, what):
+        e = HostileFault("hostile sequence %s" % what)
+        self.raised.append(e)
+        raise e
+
+    def __len__(self):
+        if self.mode in ("len", "all"):
+            self._boom("len")
+        return 2
+
+    def __getitem__(self, i):
+        self._boom("getitem")
+
+    def __reversed__(self):
+        if self.mode in ("reversed", "all"):
+            self._boom("reversed")
+        return iter(())
+
+
+class BadResultItem(object):
+    """Stack item whose registered unwrap hook returns whatever .result is."""
+
+    def __init__(self, result):
+        self.result = result
+
+
 class ObjectScenario(Scenario):
     kind = "object"
 
     def __init__(self, ctx):
-        c = ctx.tape.choose(9)
+        c = ctx.tape.choose(17)
         self.which = c
-        self.obj = [None, 42, "text", sys, int, object(), Hostile(1), Hostile(0), (1, 2)][c]
+        self.raised = []
+        if c < 9:
+            self.obj = [None, 42, "text", sys, int, object(), Hostile(1), Hostile(0), (1, 2)][c]
+        elif c < 15:
+            self.obj = _hostile_object(("class", "getattr", "len", "bool", "iter", "call")[c - 9], self.raised)
+            ctx.stat("hostile_special_method_objects")
+        else:
+            self.obj = BadResultItem(_HostileSeq(("len", "reversed", "getitem", "all")[ctx.tape.choose(4)], self.raised))
+            ctx.stat("hook_returns_hostile_sequence")
 
     def target(self):
         return self.obj
@@ -506,6 +569,7 @@ def setup(leg, params):
     from . import c10
 
     c10.setup("c05", {})
+    stackscope.unwrap_stackitem.register(BadResultItem)(lambda item: item.result)
 
 
 def do_extract(target):
@@ -534,6 +598,19 @@ def run(ctx):
             st0 = do_extract(scn.target())
         except Exception as e:
             raise Violation("c05_extract_raised", "fault-free extract(%s scenario) raised %r" % (scn.kind, e), {"scenario": scn.kind})
+        raised0 = list(getattr(scn, "raised", ()))
+        if raised0:
+            # the object (or what a hook returned for it) raised from one of its special methods:
+            # extract did not raise (checked above) and must say so in the result
+            ctx.fault("special_method_raises")
+            errs0 = errors_of(st0) if isinstance(st0, stackscope.Stack) else []
+            if not any(x is e for x in errs0 for e in raised0):
+                raise Violation(
+                    "c05_fault_not_reported",
+                    "object scenario: %d exception(s) raised by the object's own special methods during extract, none of them is in Stack.error (%r)" % (len(raised0), getattr(st0, "error", None)),
+                    {"scenario": scn.kind},
+                )
+            del scn.raised[:]
         n = len(rec.calls)
         base_calls = list(rec.calls)
         base_errors = len(errors_of(st0))
